@@ -533,7 +533,14 @@ class APE:
                     t = strip(a["kids"][0])
                     if t["k"] == "DeclRefExpr" and t.get("dk") in ("local", "param"):
                         st.fresh += 1
-                        key = t["name"]
+                        key = self._name(st, t["name"])
+                        if not self._is_var_key(key):
+                            # a helper's parameter that stands for a place of the caller: the callee writes that place
+                            for k in [k for k in st.env if k == key or k.startswith((key + ".", key + "->", key + "["))]:
+                                del st.env[k]
+                            st.env[key] = ("s", "%s.out%d#%d" % (name, i, st.fresh))
+                            cev.outs[i] = st.env[key]
+                            continue
                         st.lver[key] = st.lver.get(key, 0) + 1
                         for k in [k for k in st.env if k.startswith(key + ".")]:
                             del st.env[k]
